@@ -119,3 +119,95 @@ Qed.
 
 Theorem single_statement_refuted T : In neg_tmpl T -> exists s, Out T s /\ no_opener s = false.
 Proof. intros H. exists [45; 45; 51]. split; [now apply double_minus_out | reflexivity]. Qed.
+
+(* ------------------------------------------------------------------ the renderer with the guard of fixes/C07-N11:
+   a text chunk may end in [-] when a hole follows; the operand is parenthesised if it starts with [-] *)
+Definition nonempty_safe (s : str) : Prop := endsafe s = true /\ s <> [].
+Definition hd_hole (t : tmpl) : bool := match t with None :: _ => true | _ => false end.
+
+Lemma end_ok_split s : end_ok s = negb (ends_in_minus s || ends_in_slash s).
+Proof. unfold end_ok, ends_in_minus, ends_in_slash. destruct (lastc s); reflexivity. Qed.
+
+Lemma lastc_app_ne a b : b <> [] -> lastc (a ++ b) = lastc b.
+Proof. intros H. rewrite lastc_app. destruct b; [contradiction | reflexivity]. Qed.
+
+Lemma guard_facts acc a : nonempty_safe a -> no_opener acc = true ->
+  (end_ok acc = true \/ ends_in_minus acc = true) ->
+  endsafe (guard acc a) = true /\ guard acc a <> [] /\ bad_join acc (guard acc a) = false.
+Proof.
+  intros [Ha Hne] Hacc Hend. unfold guard.
+  destruct (ends_in_minus acc && starts_minus a) eqn:G.
+  - repeat split; [now apply endsafe_paren | discriminate |].
+    unfold bad_join. destruct (lastc acc) as [x|]; [|reflexivity]. unfold bad_pair.
+    destruct (N.eqb x c_minus), (N.eqb x c_slash); reflexivity.
+  - repeat split; [exact Ha | exact Hne |].
+    destruct Hend as [He|Hm]; [now apply end_ok_no_bad_join|].
+    rewrite Hm in G. cbn in G. unfold bad_join, ends_in_minus in *. destruct (lastc acc) as [x|]; [|reflexivity].
+    destruct a as [|y a']; [reflexivity|]. unfold starts_minus in G. unfold bad_pair.
+    apply N.eqb_eq in Hm. subst x. rewrite G. reflexivity.
+Qed.
+
+Lemma inst_g_endsafe : forall t acc fills, tmpl_safe_g t = true -> Forall nonempty_safe fills ->
+  no_opener acc = true -> (end_ok acc = true \/ (ends_in_minus acc = true /\ hd_hole t = true)) ->
+  endsafe (inst_g acc t fills) = true.
+Proof.
+  induction t as [|[s|] r IH]; intros acc fills Ht Hf Hacc Hend; cbn [inst_g].
+  - destruct Hend as [He|[_ Hh]]; [|discriminate]. unfold endsafe. now rewrite Hacc, He.
+  - cbn [tmpl_safe_g] in Ht. apply andb_prop in Ht as [Ht Hr]. apply andb_prop in Ht as [Ht Hs3].
+    apply andb_prop in Ht as [Hs1 Hs2].
+    destruct Hend as [He|[_ Hh]]; [|discriminate].
+    apply IH; [exact Hr | exact Hf | |].
+    + rewrite no_opener_app, Hacc, Hs1, (end_ok_no_bad_join acc s He). reflexivity.
+    + destruct s as [|c s'].
+      * rewrite app_nil_r. left. exact He.
+      * assert (Hne : c :: s' <> []) by discriminate.
+        assert (E1 : ends_in_minus (acc ++ c :: s') = ends_in_minus (c :: s'))
+          by (unfold ends_in_minus; now rewrite (lastc_app_ne acc _ Hne)).
+        assert (E2 : ends_in_slash (acc ++ c :: s') = ends_in_slash (c :: s'))
+          by (unfold ends_in_slash; now rewrite (lastc_app_ne acc _ Hne)).
+        destruct (ends_in_minus (c :: s')) eqn:Em.
+        -- right. split; [exact E1|].
+           cbn in Hs3. unfold hd_hole. destruct r as [|[x|] r']; try discriminate; reflexivity.
+        -- left. rewrite end_ok_split, E1, E2. apply negb_true_iff in Hs2. rewrite Hs2. reflexivity.
+  - cbn [tmpl_safe_g] in Ht.
+    assert (Hend' : end_ok acc = true \/ ends_in_minus acc = true) by (destruct Hend as [?|[? _]]; auto).
+    destruct fills as [|a fills'].
+    + assert (Hq : nonempty_safe [63]) by (split; [reflexivity | discriminate]).
+      destruct (guard_facts acc [63] Hq Hacc Hend') as (Hg & Hne & Hb).
+      apply IH; [exact Ht | constructor | |].
+      * apply andb_prop in Hg as [Hg1 _]. now rewrite no_opener_app, Hacc, Hg1, Hb.
+      * left. apply andb_prop in Hg as [_ Hg2]. unfold end_ok in *. now rewrite (lastc_app_ne acc _ Hne).
+    + inversion Hf as [|? ? Ha Hf']; subst.
+      destruct (guard_facts acc a Ha Hacc Hend') as (Hg & Hne & Hb).
+      apply IH; [exact Ht | exact Hf' | |].
+      * apply andb_prop in Hg as [Hg1 _]. now rewrite no_opener_app, Hacc, Hg1, Hb.
+      * left. apply andb_prop in Hg as [_ Hg2]. unfold end_ok in *. now rewrite (lastc_app_ne acc _ Hne).
+Qed.
+
+Theorem outg_endsafe T : tmpls_safe_g T = true ->
+  (forall s, Outg T s -> nonempty_safe s) /\ (forall l, Outsg T l -> Forall nonempty_safe l).
+Proof.
+  intros HT.
+  assert (Hin : forall t, In t T -> tmpl_safe_g t = true).
+  { unfold tmpls_safe_g in HT. rewrite forallb_forall in HT. exact HT. }
+  split.
+  - intros s H. induction H using Outg_mut with (P := fun s _ => nonempty_safe s) (P0 := fun l _ => Forall nonempty_safe l).
+    + split; assumption.
+    + match goal with H : nonempty_safe _ |- _ => destruct H as [A _] end. split; [now apply endsafe_paren | discriminate].
+    + split; [|assumption]. apply inst_g_endsafe; auto.
+    + constructor.
+    + constructor; assumption.
+  - intros l H. induction H using Outsg_mut with (P := fun s _ => nonempty_safe s) (P0 := fun l _ => Forall nonempty_safe l).
+    + split; assumption.
+    + match goal with H : nonempty_safe _ |- _ => destruct H as [A _] end. split; [now apply endsafe_paren | discriminate].
+    + split; [|assumption]. apply inst_g_endsafe; auto.
+    + constructor.
+    + constructor; assumption.
+Qed.
+
+(* with the guard, a template whose text ends in [-] directly in front of a hole is harmless *)
+Theorem single_statement_guarded T : tmpls_safe_g T = true -> forall s, Outg T s -> no_opener s = true.
+Proof.
+  intros HT s H. destruct (outg_endsafe T HT) as [A _]. destruct (A s H) as [E _].
+  unfold endsafe in E. now apply andb_prop in E as [E _].
+Qed.
